@@ -1,5 +1,6 @@
 import HypatiaProofs.Lemmas.CqeNormal
 import HypatiaProofs.Lemmas.CqeSubst
+import HypatiaProofs.Lemmas.CqeQuery
 
 /-!
 # C10  Query-expression strings parse to exactly the query they spell
@@ -279,6 +280,20 @@ theorem c10_parsed_equals_hand_built (cat : List String) (s : Sx) (q : Q) (w : W
   rw [c10_spelling_parses cat s q ht hc] at hw
   cases hw
   exact c10_structEq_refl q hn
+
+/-! ## link to the query algebra of C04/C05 -/
+
+/-- The trees of this file with integer values embed into `Hyp.Query.Q` (the algebra C04/C05 are
+about; `Cmp` is shared), and building an `And`/`Or` by the constructor here is building it by
+`Hyp.Query.mkAnd` / `mkOr` there. -/
+theorem c10_embeds_in_query_algebra (ix : String → Option Nat) (k : BoolK) (qs : List Q) :
+    (Q.mk k qs).toQuery? ix =
+      (Q.toQueryL? ix qs).map (match k with | .and => Hyp.Query.mkAnd | .or => Hyp.Query.mkOr) := by
+  cases k
+  · simp only [Q.mk, Q.toQuery?, toQueryL?_flatMap_and]
+    cases Q.toQueryL? ix qs <;> simp [Hyp.Query.mkAnd]
+  · simp only [Q.mk, Q.toQuery?, toQueryL?_flatMap_or]
+    cases Q.toQueryL? ix qs <;> simp [Hyp.Query.mkOr]
 
 /-! ## non-vacuity -/
 
